@@ -323,9 +323,14 @@ func extractOption(nodes map[string]*chanCall, opts ...Option) (map[string][]any
 				}
 			}
 		}
-		for _, path := range opt.paths {
+		for pi, path := range opt.paths {
 			if len(path.path) == 0 {
 				return nil, fmt.Errorf("call option has designated an empty path")
+			}
+			if len(opt.options) == 0 && len(path.path) > 1 && samePathBefore(opt.paths[:pi], path) {
+				// the handlers of one callbacks option attach to a node once, however often its designation list names the
+				// node (initNodeCallbacks stops at the first match at the top level): do not forward a repeated nested path again
+				continue
 			}
 
 			var curNode *chanCall
@@ -367,6 +372,25 @@ func extractOption(nodes map[string]*chanCall, opts ...Option) (map[string][]any
 	}
 
 	return optMap, nil
+}
+
+func samePathBefore(earlier []*NodePath, p *NodePath) bool {
+	for _, e := range earlier {
+		if len(e.path) != len(p.path) {
+			continue
+		}
+		same := true
+		for i := range e.path {
+			if e.path[i] != p.path[i] {
+				same = false
+				break
+			}
+		}
+		if same {
+			return true
+		}
+	}
+	return false
 }
 
 func mapToList(m map[string]any) []any {
